@@ -396,6 +396,27 @@ const c12Rule = "rapid-generated: 1..3 services (1..3 unary + 1..3 streaming met
 	"oracle: registered name => exactly that counter +1 and success; any other name => no counter moves, non-OK status error (Unimplemented in-process / NotFound over HTTP for well-formed unknown names), never a panic; a registered name without its leading slash may run that handler (tolerated by both transports); " +
 	"non-trivial = unregistered/malformed name or base path other than /; distinct by case hash"
 
+// FuzzMethodName: coverage-guided search over method-name strings (any bytes) against a fixed set of
+// registered services on the three carriers.
+func FuzzMethodName(f *testing.F) {
+	for _, n := range []string{"/a.b.Svc/M", "a.b.Svc/M", "/a.b.Svc/Get", "/a.b.Svc/S", "", "/", "//", "/a.b.Svc/", "/a.b.Svc/M/", "/a.b.Svc/./M", "/a.b.Svc/../a.b.Svc/M",
+		"/a.b.Svc%2FM", "/a.b.Svc/M?x", "/a.b.Svc/M#f", "/x.Y/S", "/a.b.Svc/M\x00", "\x7f/a.b.Svc/M", "/a.b.Svc/\u00e9", "/a.b.Svc/M%", "http://other/a.b.Svc/M", "//other/a.b.Svc/M", "/A.B.SVC/M", ":", "/a.b.Svc\\M"} {
+		f.Add(uint8(0), n, false)
+		f.Add(uint8(1), n, true)
+		f.Add(uint8(2), n, false)
+	}
+	f.Fuzz(func(t *testing.T, sel uint8, name string, viaStream bool) {
+		c := c12Case{Carrier: sutCarriers[int(sel)%len(sutCarriers)], Base: []string{"/", "/api/v1", "/x/"}[int(sel>>2)%3], Name: name, ViaStream: viaStream, Origin: "native-fuzz",
+			Services: []c12Svc{{Name: "a.b.Svc", Unary: []string{"Get", "M"}, Streams: []string{"S"}}, {Name: "x.Y", Unary: []string{"M"}, Streams: []string{"S", "T"}}}}
+		if !isHTTP(c.Carrier) {
+			c.Base = "/"
+		}
+		if o := propC12(c); o.Fail != "" {
+			t.Fatalf("C12: %s", o.Fail)
+		}
+	})
+}
+
 func TestC12(t *testing.T) {
 	runProp(t, "C12", c12Rule, genC12, propC12)
 }
